@@ -20,6 +20,11 @@ def base_sampler(dom):
                 v[rng.random(size=n) < 0.5] = 0.0          # exact zeros at the base point
                 if n:
                     v[int(rng.integers(n))] = 0.0
+            elif dom == 'Rzero_mixed':          # exact zeros in some directions (this sampler is called once per direction), none in others
+                v = rng.normal(size=n)
+                v = np.where(np.abs(v) < 0.2, 0.2, v)
+                if n and rng.random() < 0.5:
+                    v[int(rng.integers(n))] = 0.0
             elif dom == 'pos':
                 v = rng.uniform(0.3, 3.0, size=n)
             elif dom == 'gtm1':
